@@ -502,15 +502,19 @@ class MP4Tags(DictProxy, Tags):
 
         for atom in path:
             fileobj.seek(atom.offset)
-            size = cdata.uint_be(fileobj.read(4))
-            if size == 1:  # 64bit
-                # skip name (4B) and read size (8B)
-                size = cdata.ulonglong_be(fileobj.read(12)[4:])
-                fileobj.seek(atom.offset + 8)
-                fileobj.write(cdata.to_ulonglong_be(size + delta))
-            else:  # 32bit
-                fileobj.seek(atom.offset)
-                fileobj.write(cdata.to_uint_be(size + delta))
+            try:
+                size = cdata.uint_be(fileobj.read(4))
+                if size == 1:  # 64bit
+                    # skip name (4B) and read size (8B)
+                    size = cdata.ulonglong_be(fileobj.read(12)[4:])
+                    fileobj.seek(atom.offset + 8)
+                    fileobj.write(cdata.to_ulonglong_be(size + delta))
+                else:  # 32bit
+                    fileobj.seek(atom.offset)
+                    fileobj.write(cdata.to_uint_be(size + delta))
+            except cdata.error:
+                raise MP4MetadataError(
+                    "unable to update the size of %r" % atom.name)
 
     def __update_offset_table(self, fileobj, fmt, atom, delta, offset):
         """Update offset table in the specified atom."""
@@ -518,8 +522,8 @@ class MP4Tags(DictProxy, Tags):
             atom.offset += delta
         fileobj.seek(atom.offset + 12)
         data = fileobj.read(atom.length - 12)
-        fmt = fmt % cdata.uint_be(data[:4])
         try:
+            fmt = fmt % cdata.uint_be(data[:4])
             offsets = struct.unpack(fmt, data[4:])
             offsets = [o + (0, delta)[offset < o] for o in offsets]
             fileobj.seek(atom.offset + 16)
